@@ -136,6 +136,9 @@ def build_harness(name, vm="direct", san="asan", extra_defs=(), extra_src=(), li
 SAN_ENV = {"ASAN_OPTIONS": "halt_on_error=0:detect_leaks=0:allocator_may_return_null=1:detect_stack_use_after_return=0:print_summary=0:max_malloc_fill_size=0",
            "UBSAN_OPTIONS": "print_stacktrace=0:halt_on_error=1", "LSAN_OPTIONS": "exitcode=0"}
 
+# checks that ask the harness for a leak verdict (op L: __lsan_do_recoverable_leak_check) switch LeakSanitizer on
+LEAK_ENV = {"ASAN_OPTIONS": SAN_ENV["ASAN_OPTIONS"].replace("detect_leaks=0", "detect_leaks=1")}
+
 
 LINE_TIMEOUT = 30      # seconds without an output line before the process counts as hung on the current input line
 
